@@ -159,10 +159,13 @@ func vRunCase(c *vCase, settle func()) []string {
 	}
 	ctx, cancel := context.WithCancel(context.Background())
 	done := make(chan error, 1)
-	t0 := time.Now()
 	go func() { done <- p.Run(ctx) }()
-	lines := vDrive(h, t0, 5*time.Second, settle)
+	lines := vDrive(h, 5*time.Second)
+	_ = settle
 	cancel()
 	<-done
+	// a failing renewal may still be inside its one-second delay (see onRenew): let it finish, a
+	// synctest bubble must not be left with a sleeping goroutine
+	time.Sleep(1500 * time.Millisecond)
 	return lines
 }
